@@ -24,4 +24,8 @@ while IFS=$'\t' read -r pid cmd; do
   [ -s "evidence/$pid.json" ] || { echo "[selftest] $pid wrote no evidence"; bad=1; }
 done < <(python3 -c "import json
 for c in json.load(open('MANIFEST.json'))['checks']: print(c['property_id']+'\t'+c['quick_cmd'])")
+# with /repo clean, regeneration must reproduce the committed Gen/*.lean byte for byte (setup_cmd builds those)
+if git -C /repo diff --quiet && [ -n "$(git status --short lean/UflVerif/Gen)" ]; then
+  echo "[selftest] committed Gen files differ from what the clean /repo generates:"; git status --short lean/UflVerif/Gen; bad=1
+fi
 exit $bad
